@@ -38,6 +38,8 @@ def panic_sites(ctx):
         rootb = F.mir_by_path.get((b["crate"], root)) or b
         fmac = rootb.get("mac") or []
         for blk in b["blocks"]:
+            if blk.get("inlined_from") and (b["crate"], blk["inlined_from"]) in F.mir_by_path:
+                continue    # a copy of a helper's block (normalise.py); the site is counted in the helper's own body
             t = blk.get("term") or {}
             if t.get("k") == "assert" and t["assert"] not in IGNORED_ASSERTS:
                 out.append({"crate": b["crate"], "fn": root, "fn_mac": fmac, "kind": "assert", "what": t["assert"],
